@@ -45,6 +45,17 @@ def clamp_inputs(topo, X, flags):
     return out
 
 
+def alias_inputs(X, share):
+    """density and speed of every link hold the same values, and so do queue and demand of every origin; with
+    share=True they are moreover ONE array object (a caller re-using a buffer), otherwise equal separate arrays."""
+    out = dict(X)
+    for (el, var), val in X.items():
+        src = {"v": "rho", "d": "w"}.get(var)
+        if src and (el, src) in X and np.shape(X[(el, src)]) == np.shape(val):
+            out[(el, var)] = X[(el, src)] if share else X[(el, src)].copy()
+    return out
+
+
 def clamp_next(key, s, flags):
     q = QUANT[key[1]]
     return clamp_S(s) if flags[f"positive_next_{q}"] else s
@@ -95,6 +106,32 @@ def work(item):
                 dom = D + list(ref.extra_domain.get((key[0], key[1], i), []))
                 acc.query(prover, topo, f"numpy[{style}]", f"options {bits:06b}: {key[1]}_{key[0]}[{i}] == clamped METANET oracle", a.t == oracle[key][i],
                           dom, pr.pc, lambda model, key=key, i=i: replay_oracle(topo, style, flags, netcheck.model_env(topo, model, rng), key, i))
+    # NumPy, one array object supplied for several quantities (density and speed of a link; queue and demand of an origin):
+    # each option still clamps only the quantity it names -- the other user of the same array keeps the unclamped values
+    if bits & 0b000111 and (bits + seed) % 2 == 0 or topo.name.startswith("k01"):
+        def fn_alias():
+            P = runs.sym_params(topo)
+            Xa, Xb = alias_inputs(runs.sym_inputs(topo, "array"), True), alias_inputs(runs.sym_inputs(topo, "array"), False)
+            _, nA = runs.step_numpy(topo, P, Xa, flags)
+            _, nB = runs.step_numpy(topo, runs.sym_params(topo), clamp_inputs(topo, Xb, flags), runs.NOFLAGS)
+            return nA, nB
+
+        try:
+            prs2 = list(explore(fn_alias, domain=()))
+        except (symx.UnsupportedOp, symx.Inconclusive) as e:
+            acc.inconclusive(f"{topo.name} shared arrays: {e}")
+            prs2 = []
+        for pr in prs2:
+            acc.d["encodings"] += 1
+            acc.d["paths"] += 1
+            if pr.exc is not None:
+                acc.exec_violation(PID, topo, "numpy[shared-arrays]", "array", f"raised {type(pr.exc).__name__}: {pr.exc}", flags)
+                continue
+            nA, nB = pr.value
+            for key in nA:
+                for i, (a, b) in enumerate(zip(symx.leaves(nA[key]), symx.leaves(nB[key]))):
+                    acc.query(prover, topo, "numpy[shared-arrays]", f"options {bits:06b}, one array object given for two quantities: {key[1]}_{key[0]}[{i}]", a.t == clamp_next(key, b, flags).t, (), pr.pc,
+                              lambda model, key=key, i=i: replay_alias(topo, flags, netcheck.model_env(topo, model, rng), key, i))
     # CasADi: two compiled functions, the all-off one evaluated at clamped arguments
     numeric = netcheck.casadi_numeric_for(topo)
     for st in ("SX", "MX"):
@@ -182,6 +219,41 @@ def replay_point(topo, eng, style, flags, env, key, i, numeric=None, verbose=Fal
                        "target": [list(key), i], "numeric": numeric}}
 
 
+def replay_alias(topo, flags, env, key, i, verbose=False):
+    import warnings
+
+    def run(fl, X):
+        with warnings.catch_warnings():
+            warnings.simplefilter("ignore")
+            try:
+                with np.errstate(all="ignore"):
+                    _, nxt = runs.step_numpy(topo, numrun.float_params(topo, env), X, fl)
+            except Exception:  # noqa
+                return None
+        return {k: [float(x) for x in np.atleast_1d(np.asarray(v, dtype=float)).reshape(-1)] for k, v in nxt.items() if v is not None}
+
+    ra = run(flags, alias_inputs(runs.float_inputs(topo, env, "array"), True))
+    Xb = alias_inputs(runs.float_inputs(topo, env, "array"), False)
+    for (el, var), val in Xb.items():
+        q = QUANT.get(var)
+        if q and flags[f"positive_init_{q}"]:
+            Xb[(el, var)] = np.maximum(0.0, val)
+    rb = run(runs.NOFLAGS, Xb)
+    if ra is None or rb is None:
+        return None
+    x, y = ra[tuple(key)][i], rb[tuple(key)][i]
+    if flags[f"positive_next_{QUANT[key[1]]}"]:
+        y = max(0.0, y) if y == y else y
+    if verbose:
+        print(f"numpy, one array object for rho and v (w and d): step with options = {x!r}; clamp(plain step(clamp(separate arrays))) = {y!r}")
+    if numrun.close(x, y, 1e-7, 1e-9):
+        return None
+    return {"key": f"clamp-shared:{topo.name}:{key[1]}_{key[0]}[{i}]:{sorted(k for k, v in flags.items() if v)}", "group": f"clamp-shared:{topo.name}",
+            "what": f"{topo.describe()} | numpy options {[k for k, v in flags.items() if v]}, the same array object supplied for density and speed (queue and demand): "
+                    f"next {key[1]}_{key[0]}[{i}] = {x!r}, clamp semantics on separate equal arrays give {y!r}",
+            "replay": {"property": PID, "kind": "alias", "topo": topo.to_json(), "flags": flags, "env": env, "target": [list(key), i]}}
+
+
 def replay_oracle(topo, style, flags, env, key, i, verbose=False):
     zmax0 = lambda t: z3.If(z3.RealVal(0) >= t, z3.RealVal(0), t)
     ref = ref_metanet.Ref(topo, clamp_init=lambda kind, t: zmax0(t) if flags[f"positive_init_{kind}"] else t)
@@ -210,6 +282,8 @@ def replay(rec):
         return netcheck.replay_exec(rec)
     topo = T_.Topo.from_json(rec["topo"])
     key, i = rec["target"]
+    if rec["kind"] == "alias":
+        return 1 if replay_alias(topo, rec["flags"], rec["env"], key, i, True) else 0
     return 1 if replay_point(topo, rec["engine"], rec["style"], rec["flags"], rec["env"], key, i, rec.get("numeric"), True) else 0
 
 
